@@ -87,6 +87,27 @@ class OpSpec(StateModel, FunctionSpec):
     def mk_loops(self) -> dict[Any, Any]:
         return {}
 
+    # ---- termination of while loops (C07; requested by setting `termination = True` on an instance)
+    termination = False
+
+    def termination_variant(self, run: Run, lspec, g, mark):
+        """variant of a while loop: the loop contract's own `variant(run, ghosts)`, by default len(input) - state.pos.
+        Progress hypotheses (the property's precondition 'no repetition over an expression that can match empty', which
+        includes the implicit (WHITESPACE | COMMENT)*): every child / rule oracle call made since the loop head that
+        succeeded moved the position forward; plus the loop contract's own `variant_hyps(run, ghosts at head)`.
+        Implicit-trivia calls carry no such hypothesis (trivia may be empty; G gives pos' >= pos)."""
+        vf = getattr(lspec, "variant", None)
+        v = vf(run, g) if vf is not None else z3.Length(INP) - lget(self.cur(run), "pos")
+        if mark is None:
+            hf = getattr(lspec, "variant_hyps", None)
+            return (v, len(run.ghost.get("oracle_calls", [])), list(hf(run, g)) if hf is not None else [])
+        _v0, n0, hyps = mark
+        hyps = list(hyps)
+        for fam, i, L in run.ghost.get("oracle_calls", [])[n0:]:  # noqa: N806
+            if fam[0].name() != "tv_ok":
+                hyps.append(z3.Implies(fam[0](i, L), lget(fam[1](i, L), "pos") > lget(L, "pos")))
+        return v, hyps
+
     # ---- pre-state
     def mk_self(self, run: Run) -> Ref:
         return run.heap.alloc(self.cls, {"expression": Child(0, "c"), "tag": None}, fresh=False)
@@ -309,7 +330,20 @@ def rep_loop(spec: "OpSpec") -> Loop:
     def modifies(run):
         return spec.state_cells(run) + spec.local_lists(run, "children")
 
-    return Loop(inv, facts=facts, modifies=modifies, ghosts={"first": "bool", "La": "ls", "acc": "seq:pair"}, entry=entry, back=back)
+    def variant(run, g):
+        # the state saved by the open checkpoint moves forward with every committed item
+        return z3.Length(INP) - lget(z(g["La"]), "pos")
+
+    def variant_hyps(run, g):
+        # the body runs only when the child matched from Lin: that match consumed input (property precondition)
+        La, Ls = z(g["La"]), run.ghost["rep_Ls"]  # noqa: N806
+        Lin = z3.If(z(g["first"]), Ls, TV[1](0, La))  # noqa: N806
+        ok, L2, _ = ocall(C, 0, Lin)  # noqa: N806
+        return [z3.Implies(ok, lget(L2, "pos") > lget(Lin, "pos"))]
+
+    lp = Loop(inv, facts=facts, modifies=modifies, ghosts={"first": "bool", "La": "ls", "acc": "seq:pair"}, entry=entry, back=back)
+    lp.variant, lp.variant_hyps = variant, variant_hyps
+    return lp
 
 
 class RepeatSpec(OpSpec):
@@ -1242,7 +1276,9 @@ class PopAllSpec(JoinLoopSpec):
             st = run.pre["st"]
             return [(run.obj(run.obj(st)["user_stack"])["items"], "seq")]
 
-        return {0: Loop(inv, facts=facts, modifies=modifies)}
+        lp = Loop(inv, facts=facts, modifies=modifies)
+        lp.variant = lambda run, g: z3.Length(lget(spec.cur(run), "stk"))  # one entry fewer per turn
+        return {0: lp}
 
 
 # ============================================================================ ParserState.parse_trivia (interpreter)
